@@ -1708,6 +1708,10 @@ func (p *scionPacketProcessor) validateSrcHost() disposition {
 		return pForward
 	}
 	src, err := p.scionLayer.SrcAddr()
+	if err == nil && src.Type() != addr.HostTypeIP {
+		// Only IP hosts can be the source of a packet (src.IP() panics for an SVC address).
+		err = serrors.New("unsupported source host address type", "type", src.Type())
+	}
 	if err == nil && src.IP().Is4In6() {
 		err = ErrUnsupportedV4MappedV6Address
 	}
